@@ -119,6 +119,7 @@ def parseOp (j : Json) : Except String Net.Op := do
   | "add" => pure (.add (← parseReac a))
   | "addMany" => pure (.addMany (← (← a.getArr?).toList.mapM parseReac))
   | "removeIdx" => pure (.removeIdx (← a.getNat?))
+  | "removeAt" => pure (.removeAt (← a.getInt?))
   | "removeIdxs" => pure (.removeIdxs (← natList a))
   | "removeInst" => pure (.removeInst (← a.getNat?))
   | "removeInsts" => pure (.removeInsts (← natList a))
@@ -392,6 +393,13 @@ def handleFtoC (j : Json) : Except String Json := do
   let t ← parseFTree (← j.getObjVal? "tree")
   pure <| Json.mkObj [("text", chText (Fortran.toC t)), ("parses_back", Fortran.parsesBack t)]
 
+def handleNint (j : Json) : Except String Json := do
+  let vals ← (← (← j.getObjVal? "vals").getArr?).toList.mapM fun p => do
+    let n ← (← p.getArrVal? 0).getInt?
+    let d ← (← p.getArrVal? 1).getNat?
+    pure ((n : Rat) / (d : Rat))
+  pure <| Json.arr (vals.map fun q => Json.arr #[Json.num (Fortran.fnint q : Int), Json.num (Fortran.crint q : Int)]).toArray
+
 def handleDExp (j : Json) : Except String Json := do
   let s ← (← j.getObjVal? "text").getStr?
   pure (Json.str (String.ofList (Fortran.dExp s.toList)))
@@ -469,6 +477,7 @@ def handle (line : String) : String :=
       | "parseopts" => handleParseOpts j
       | "grainrate" => handleGrainRate j
       | "dexp" => handleDExp j
+      | "nint" => handleNint j
       | "encode_native" => handleEncodeNative j
       | "kromebound" => handleKrome j
       | "dup" => handleDup j
